@@ -361,6 +361,64 @@ def dense_count_sweep(chk, tier, only=None):
 IMPORTS = "From QV Require Import Base.Alg Base.Sums Base.Mat Base.Tens Base.Util Model.C01 Model.C02 Model.C08.\n"
 
 
+def rwa_monitor(chk, tier):
+    """rotating-wave frame: the superoperator calculated for a Hamiltonian with RWA and converted back (convert_from_RWA) applied to a
+    state is the direct propagation converted back - whether the RWA was switched on before or AFTER the superoperator object was
+    created (the Hamiltonian is read when the calculation runs)."""
+    import numpy as np
+    import quantarhei as qr
+    from quantarhei.qm import Operator, SystemBathInteraction, LindbladForm, EvolutionSuperOperator
+    r = cm.rng(PID + "rwa")
+    for k in range(4 if tier == "quick" else 24):
+        rs = np.random.RandomState(r.randrange(2 ** 31))
+        n = int(rs.choice([3, 4]))
+        nd = int(rs.choice([1, 2, 5]))
+        when = ["before_construction", "after_construction"][k % 2]
+        c = {"kind": "rwa", "n": n, "ndense": nd, "set_rwa": when, "k": k}
+        try:
+            with contextlib.redirect_stdout(io.StringIO()):
+                Hm = rs.randn(n, n) * 0.02
+                Hm = Hm + Hm.T
+                Hm[0, :] = 0.0
+                Hm[:, 0] = 0.0
+                for i in range(1, n):
+                    Hm[i, i] += 2.2
+                ta = qr.TimeAxis(0.0, 20, 1.0)
+                Kop = np.zeros((n, n))
+                Kop[1, n - 1] = 1.0
+
+                def system():
+                    ham = qr.Hamiltonian(data=Hm.copy())
+                    sbi = SystemBathInteraction(sys_operators=[Operator(data=Kop.copy())], rates=[0.01])
+                    return ham, LindbladForm(ham, sbi, as_operators=False)
+                ham, LF = system()
+                if when == "before_construction":
+                    ham.set_rwa([0, 1])
+                U = EvolutionSuperOperator(ta, ham, LF)
+                U.set_dense_dt(nd)
+                if when == "after_construction":
+                    ham.set_rwa([0, 1])
+                U.calculate()
+                prop = qr.ReducedDensityMatrixPropagator(ta, ham, LF)
+                if nd > 1:
+                    prop.setDtRefinement(nd)
+                A = rs.randn(n, n) + 1j * rs.randn(n, n)
+                rho = A.dot(A.conj().T)
+                rho /= np.trace(rho)
+                ev = prop.propagate(qr.ReducedDensityMatrix(data=rho.copy()))
+                ev.convert_from_RWA(ham)
+                U.convert_from_RWA()
+                worst = max(float(np.max(np.abs(np.array(U.apply(float(ta.data[i]), qr.ReducedDensityMatrix(data=rho.copy())).data) - ev.data[i])))
+                            for i in range(ta.length))
+            chk.count("rwa:" + when)
+            chk.case(("rwa", k, when, n, nd), True)
+            if worst > 1e-9:
+                chk.violation("rwa:apply_vs_propagation:" + when, "RWA switched on %s of the superoperator: U(t) rho converted from the rotating "
+                              "frame differs from the direct propagation converted back by %.3g" % (when.replace("_", " "), worst), "monitor", c)
+        except Exception as e:
+            chk.violation("rwa:exception", "RWA monitor raised %r" % (e,), "monitor", c)
+
+
 def main():
     chk = cm.Check(PID, args.tier)
     chk.rule = ("exact-rational cases: n<=3, dense settings 1-3, grids of 2-4 points, dyadic dense step, modes 'all' and 'jit' (save on/off), apply at every "
@@ -392,6 +450,7 @@ def main():
             reset_manager()
     if not args.replay:
         float_monitors(chk, args.tier)
+        rwa_monitor(chk, args.tier)
         dense_count_sweep(chk, args.tier)
     shards = [cm.HEADER + IMPORTS + "Definition cs : list case08 := [%s].\nEval vm_compute in (bad agrees08 cs).\n" % it for it in items]
     for k, (rc, out) in enumerate(cm.coq_eval(PID, shards, timeout=1500)):
